@@ -732,7 +732,9 @@ def c18(a):
         ex = ["--zones", zd, "--loader", loader] + lim
         if drv != "c03":
             ex += ["--max-system", "20"] if quick and "--max-system" not in ex else []
-        s = run_driver(binr, drv, os.path.join(wd, stem), a.tier, a.seed, ex)
+        # the thorough tier widens the zones (every zone of every class through every loader), not the probes per zone:
+        # the per-zone depth of the thorough C03 / C04 / C14 tiers (every rule year to 9999) times 19 runs would take days
+        s = run_driver(binr, drv, os.path.join(wd, stem), "quick", a.seed, ex + ([] if quick else ["--right", "1"]))
         c.add_summary(s)
         if s["files"]:
             results, mism = tlc_trace("Trace_Tz.tla", s["files"], "C18")
